@@ -76,3 +76,13 @@ M("c10-limiter-adapter-acquire-not-awaited", "C10", SYNC, "CapacityLimiterAdapte
 M("c10-limiter-adapter-setter-lost", "C10", SYNC, "CapacityLimiterAdapter.total_tokens@setter", "        self._limiter.total_tokens = value", "        self._total_tokens = value", ["R10-h"])
 M("c10-limiter-adapter-available-stale", "C10", SYNC, "CapacityLimiterAdapter.available_tokens", "        return self._internal_limiter.available_tokens", "        return self._total_tokens", ["R10-h"])
 M("c10-limiter-factory-wrong-adapter-arg", "C10", SYNC, "CapacityLimiter.__new__", "return CapacityLimiterAdapter(total_tokens)", "return CapacityLimiterAdapter(1)", ["R10-h"])
+
+# from seeded changes C10/g, C10/h (round 4)
+M("c10-negative-initial-value-accepted-with-max", "C10", SYNC, "Semaphore.__init__",
+  "        if initial_value < 0:\n            raise ValueError(\"initial_value must be >= 0\")\n        if max_value is not None:",
+  "        if max_value is None and initial_value < 0:\n            raise ValueError(\"initial_value must be >= 0\")\n        if max_value is not None:", ["R10-j"])
+M("c10-max-guard-after-handover", "C10", A, "Semaphore.release",
+  "        if self._max_value is not None and self._value == self._max_value:\n            raise ValueError(\"semaphore released too many times\")\n\n        while self._waiters:\n            fut = self._waiters.popleft()\n            if fut.cancelled():\n                continue\n\n            fut.set_result(None)\n            return\n\n",
+  "        while self._waiters:\n            fut = self._waiters.popleft()\n            if fut.cancelled():\n                continue\n\n            fut.set_result(None)\n            return\n\n        if self._max_value is not None and self._value == self._max_value:\n            raise ValueError(\"semaphore released too many times\")\n\n", ["R10-b"])
+M("c10-backend-semaphore-skips-validation", "C10", A, "Semaphore.__init__", "        super().__init__(initial_value, max_value=max_value)\n        self._value = initial_value", "        self._value = initial_value", ["R10-j"])
+M("c10-release-drops-live-waiter", "C10", A, "Semaphore.release", "            if fut.cancelled():\n                continue\n\n            fut.set_result(None)", "            if fut.cancelled() or fut.done():\n                continue\n\n            fut.set_result(None)", ["R10-b"])
